@@ -3,7 +3,16 @@ import WuffsVerif.Model.WCore.Bounds
 import WuffsVerif.Model.WCore.Stmt
 import WuffsVerif.Model.WCore.NoRec
 import WuffsVerif.Model.WCore.IOTable
-/-! Line driver for C01 (WCore scalar fragment).  Ops:
+import WuffsVerif.Model.WCore.FlowMethod
+import Driver.C02Flow
+/-! Line driver for C01 (WCore: scalars, arrays, and — through C02's flow layer — whole function
+bodies with control flow).  Ops:
+  case func <n> (<param> <type>)*n <stmt>
+                                -> accept <npoints> | reject | ill-formed
+                                   (`wfMethod`, the computable hypothesis of Props.C01.check_sound_flow,
+                                    then `checkS [] []` = bcheckBlock on the function body; <stmt>: the
+                                    grammar of Driver/C02Flow.lean, whose parser is used)
+  pt <k>                        -> <m> <fact>*m | unreachable     (the situation at point k of the current function)
   tb <type>                     -> lo hi | reject                 (bcheckTypeExpr1)
   bounds <n> <fact>*n <expr>    -> lo:hi per node, pre-order | reject      (bcheckExpr)
   facts <n> <fact>*n <stmt>     -> <m> <fact>*m | reject          (bcheckAssignment, scalar)
@@ -213,4 +222,50 @@ def c01Step (l : List String) : String :=
     | _, _ => "bad-op"
   | _ => "bad-op"
 
-def main : IO Unit := runPure c01Step
+/-- the state of the `case func` / `pt` ops: the situations at the points of the current function -/
+structure FlowState where
+  pts : Array (Option (List Expr)) := #[]
+
+partial def parseParams (k : Nat) (toks : List String) (acc : List (String × Ty)) :
+    Option (List (String × Ty) × List String) :=
+  if k == 0 then some (acc.reverse, toks) else
+    match toks with
+    | n :: rest => do
+      let (t, rest) ← parseTy rest
+      parseParams (k - 1) rest ((n, t) :: acc)
+    | [] => none
+
+def flowStep (st : FlowState) (l : List String) : Option (FlowState × String) :=
+  match l with
+  | "case" :: "func" :: n :: rest =>
+    match n.toNat? with
+    | none => some ({ pts := #[] }, "bad-op")
+    | some n =>
+      match parseParams n rest [] with
+      | none => some ({ pts := #[] }, "bad-op")
+      | some (params, rest) =>
+        match C02Flow.parseStmt rest with
+        | some (s, []) =>
+          let m : WuffsVerif.WFlow.FMethod := ⟨params, s⟩
+          if !WuffsVerif.WFlow.wfMethod m then some ({ pts := #[] }, "ill-formed") else
+          match WuffsVerif.WFlow.checkS [] [] s with
+          | none => some ({ pts := #[] }, "reject")
+          | some _ =>
+            let p := (WuffsVerif.WFlow.points [] (some []) s).toArray
+            some ({ pts := p }, "accept " ++ toString p.size)
+        | _ => some ({ pts := #[] }, "bad-op")
+  | ["pt", k] =>
+    match k.toNat? with
+    | some k =>
+      match st.pts[k]? with
+      | some (some fs) => some (st, C02Flow.showFacts fs)
+      | some none => some (st, "unreachable")
+      | none => some (st, "bad-op")
+    | none => some (st, "bad-op")
+  | _ => none
+
+def main : IO Unit :=
+  Line.run ({} : FlowState) (fun st l =>
+    match flowStep st l with
+    | some r => r
+    | none => (st, c01Step l))
